@@ -147,6 +147,7 @@ func runC15Lint(t *testing.T, sc C15LintScenario, record bool) *detsim.Outcome {
 	base := runPint(t, c15LintEnv(&sc, 1, detsim.SchedConfig{Order: detsim.OrderOldest}, true), false)
 	if !base.Live {
 		out.AddViolation("liveness", "healthy baseline did not finish")
+		out.Poisoned = true
 		return out
 	}
 	r := runPint(t, c15LintEnv(&sc, sc.Workers, sc.Sched, false), record)
@@ -158,6 +159,7 @@ func runC15Lint(t *testing.T, sc C15LintScenario, record bool) *detsim.Outcome {
 	who := fmt.Sprintf("`pint lint` during %s (--workers %d, servers %+v)", sc.Kind, sc.Workers, sc.Servers)
 	if !r.Live {
 		out.AddViolation("liveness", who+": the command did not finish (leak: "+r.Leak+")")
+		out.Poisoned = true
 		return out
 	}
 	if r.Leak != "" {
